@@ -2,7 +2,7 @@
 (dicts of dicts of lists keyed by user objects) is decided by bounded/c05_allocate.py."""
 from pyvc.spec import contract, lemma
 from pyvc.values import TInt, TRec, TNone
-from pyvc.speclib import implies, iff, exists_int
+from pyvc.speclib import implies, iff, exists_range
 
 SLICE = TRec("slice", start=TInt(), stop=TInt(), step=TNone())
 
@@ -17,7 +17,9 @@ class SlicesOverlap:
         return slices_overlap(slice(slice_a.start, slice_a.stop), slice(slice_b.start, slice_b.stop))
 
     def ensures_true_iff_the_ranges_share_a_point(slice_a, slice_b, result):
-        return iff(result, exists_int(lambda p: slice_a.start <= p < slice_a.stop and slice_b.start <= p < slice_b.stop))
+        # (any shared point lies between the smaller start and the larger stop)
+        return iff(result, exists_range(min(slice_a.start, slice_b.start), max(slice_a.stop, slice_b.stop),
+                                        lambda p: slice_a.start <= p < slice_a.stop and slice_b.start <= p < slice_b.stop))
 
     def ensures_symmetric_closed_form(slice_a, slice_b, result):
         return iff(result, slice_a.start < slice_b.stop and slice_b.start < slice_a.stop
